@@ -11,6 +11,10 @@ Decided (structural):
  d normalisation never weakens the store: a stored constraint s is discarded only when
    new.subsumes(s); the new constraint is left out only when some stored s.subsumes(new);
  e the `!=` goal is disunify -> unit stream / empty stream.
+ f (round 4) both re-check loops (run, subsumes) thread the state *returned by unifying the
+   previous pair* into the next pair (one conjunction of equations, not independent tests);
+   the `implied` predicate of normalisation is false for a stored constraint of another kind
+   (map_or(false, ..) / is_some_and / match .. None => false).
 """
 import streams
 import sym
@@ -137,6 +141,13 @@ def check_run(ctx, lib, rule):
                 es = [e for e in tables.stmts_of(errarm[0][2]) if not tables.harmless_effect(e)]
                 os_ = [e for e in tables.stmts_of(okarm[0][2]) if not tables.harmless_effect(e)]
                 good = len(es) == 1 and es[0][0] == "ret" and unify(pat("Ok(@1)"), es[0][1]) is not None and len(os_) == 1 and os_[0][0] == "assign" and os_[0][1] == st
+                if good:
+                    # ... and what is threaded on is the state this very unification returned (bindings of earlier pairs must be
+                    # visible to later ones: `[x, y] != [a, a]` is one conjunction of equations, not independent tests)
+                    val = os_[0][2]
+                    good = val[0] == "proj" and val[1] == c and val[2].endswith("Ok") and val[3] == 0
+                    ctx.expect(good, rule, key + "|threads-unified-state", site, "the scratch state for the next pair must be the state returned by unifying this pair; found %s" % show(val, maxdepth=4)[:120])
+                    good = True
         ctx.expect(good, rule, key + "|entailed", site, "a pair that no longer unifies entails the constraint: return Ok(state) with the original state (and otherwise thread the scratch state)")
         r = res
         good2 = False
@@ -208,9 +219,46 @@ def check_subsumes(ctx, lib, rule):
         ctx.expect(good, rule, key + "|in-others-substitution", site, "the pairs must be unified in a state whose substitution is *other's* pairs")
         errs = [s for s in sym.subterms(f[3]) if s[0] == "ret"]
         ctx.expect(bool(errs) and all("false" in str(e[1]) for e in errs), rule, key + "|err-false", site, "a pair that cannot be unified -> not subsumed (false)")
+        c = calls[0]
+        mm = [s for s in sym.subterms(f[3]) if s[0] == "match" and s[1] == c]
+        okarm = tables.find_arm(mm[0], "Ok") if mm else []
+        thr = False
+        if len(okarm) == 1:
+            os_ = [e for e in tables.stmts_of(okarm[0][2]) if not tables.harmless_effect(e)]
+            thr = len(os_) == 1 and os_[0][0] == "assign" and os_[0][1] == st and os_[0][2][0] == "proj" and os_[0][2][1] == c and os_[0][2][2].endswith("Ok") and os_[0][2][3] == 0
+        ctx.expect(thr, rule, key + "|threads-unified-state", site, "the state for the next pair must be the one returned by unifying this pair")
         ctx.expect(res[0] == "call" and suffix_match(res[1], "is_empty") and _same_ext(res[2][0], ext), rule, key + "|result", site, "result must be extension.is_empty(); found %s" % show(res, maxdepth=4))
     else:
         ctx.violation(rule, key + "|unify", site, "expected one unify_rec call")
+
+
+def _implied_predicate(clo, NEW):
+    """The per-stored-constraint predicate of `implied`: true only when the stored constraint *is* a
+    disequality and subsumes the new one - a stored constraint of another kind (finite-domain, user)
+    implies nothing about a tree disequality.  Accepted idioms: downcast.map_or(false, |d| d.subsumes(new)),
+    downcast.is_some_and(|d| ...), match downcast { Some(d) => d.subsumes(new), None | _ => false }."""
+    if clo[0] != "closure":
+        return False
+    cp = ("cparam", clo[1], 0)
+    body = tables.result(clo[3])
+
+    def is_dc(x):
+        return x[0] == "call" and "downcast_ref" in x[1] and "DisequalityConstraint" in x[1] and x[2][0] == cp
+
+    def is_subs(x, who):
+        return x[0] == "call" and suffix_match(x[1], "DisequalityConstraint::subsumes") and x[2][0] == who and unify(NEW, x[2][1]) is not None
+
+    if body[0] == "call" and suffix_match(body[1], "map_or") and len(body[2]) == 3:
+        dc, dflt, inner = body[2]
+        return is_dc(dc) and dflt == ("lit", "Bool(false)") and inner[0] == "closure" and is_subs(tables.result(inner[3]), ("cparam", inner[1], 0))
+    if body[0] == "call" and suffix_match(body[1], "is_some_and") and len(body[2]) == 2:
+        dc, inner = body[2]
+        return is_dc(dc) and inner[0] == "closure" and is_subs(tables.result(inner[3]), ("cparam", inner[1], 0))
+    if body[0] == "match" and is_dc(body[1]):
+        some = tables.find_arm(body, "Some")
+        rest = [a for a in body[2] if a not in some]
+        return len(some) == 1 and is_subs(tables.result(some[0][2]), ("proj", body[1], "std::prelude::v1::Some", 0)) and bool(rest) and all(tables.result(a[2]) == ("lit", "Bool(false)") for a in rest)
+    return False
 
 
 def check_normalize(ctx, lib, rule):
@@ -283,7 +331,7 @@ def check_normalize(ctx, lib, rule):
             anyc = [c for c in sym.calls(ll, "any")]
             if pol and sc and anyc and all(unify(NEW, c[2][1]) is not None and unify(NEW, c[2][0]) is None for c in sc):
                 src2, ch2 = streams.iter_chain(anyc[0][2][0])
-                if unify(pat("@0.0"), src2) is not None:
+                if unify(pat("@0.0"), src2) is not None and _implied_predicate(anyc[0][2][1], NEW):
                     just = True
         if not just:
             good = False
